@@ -146,6 +146,13 @@ def run_case(ck, desc):
         as_series = int(desc["pmax"]) % 2 == 1
         arg = pd.Series(dict(comp, well="A-1")) if as_series else comp  # a row of a well table
         pmax_arg = int(desc["pmax"]) if float(desc["pmax"]).is_integer() else desc["pmax"]
+        for bad in ("", "gas", "dry", "oil", "Dry gas"):
+            try:
+                build_pvt_gas(arg, bad, maximum_pressure=45)
+            except Exception as e:  # noqa: BLE001
+                ck.count(f"table.rejections.{type(e).__name__}")
+            else:
+                ck.violation("sutton.unknown-fluid-type-rejected", {"type": repr(bad), "through": "build_pvt_gas"}, desc)
         tab = build_pvt_gas(arg, dry, maximum_pressure=pmax_arg)
         if comp != comp_before:
             ck.violation("table.inputs-unmodified", {}, desc)
@@ -190,12 +197,15 @@ def run_case(ck, desc):
     t1, p1 = gas.pseudocritical_point_Sutton(sg, with_extra, dry)
     if not (t1 == Tpc and p1 == ppc):
         ck.violation("sutton.zero-fraction-extra-component", {"with": [t1, p1], "without": [Tpc, ppc]}, desc)
-    try:
-        gas.pseudocritical_point_Sutton(sg, nonhc, desc["bad_type"])
-    except Exception as e:  # noqa: BLE001
-        ck.count(f"sutton.rejections.{type(e).__name__}")
-    else:
-        ck.violation("sutton.unknown-fluid-type-rejected", {"type": desc["bad_type"]}, desc)
+    # every name other than the two documented ones: pieces, paddings, case and separator variants of
+    # them, their concatenation, and non-strings
+    for bad in (desc["bad_type"], "dry", "gas", "wet", " dry gas", "dry gas ", "dry_gas", "wetgas", "DRY GAS", "Wet gas", "dry gaswet gas", "y gas", "g", None, 0, ("dry gas",)):
+        try:
+            gas.pseudocritical_point_Sutton(sg, nonhc, bad)
+        except Exception as e:  # noqa: BLE001
+            ck.count(f"sutton.rejections.{type(e).__name__}")
+        else:
+            ck.violation("sutton.unknown-fluid-type-rejected", {"type": repr(bad)}, desc)
     # contaminants must matter (guards against a point that ignores the composition)
     if comp["N2"] + comp["H2S"] + comp["CO2"] > 1e-3:
         t0, p0 = gas.pseudocritical_point_Sutton(sg, zero, dry)
